@@ -134,3 +134,32 @@ K_F, K_R, K_C, K_M, K_EF, K_ER, K_NONE = 0, 1, 2, 3, 4, 5, 9
 
 CLASSES = ["SingleMemory", "SingleDiskCopy", "SingleDiskMove", "None", "Multistage",
            "Mixed", "TwoLevel", "Revolve", "DiskRevolve", "PeriodicDiskRevolve", "HRevolve"]
+
+
+class Hung(Exception):
+    """A call into the library did not return in time (reported like any other failure of the call)."""
+
+
+_HANGS = {}
+
+
+def timed(key, fn, seconds=10):
+    """Run fn() under a SIGALRM watchdog (main thread of the calling process).  A hang becomes the
+    exception Hung; after three hangs under the same key the call is not attempted again, so a
+    library that loops for ever costs seconds, not the whole check."""
+    import signal
+    if _HANGS.get(key, 0) >= 3:
+        raise Hung(f"{key}: not called again after 3 hangs")
+
+    def on_alarm(signum, frame):
+        raise Hung(f"{key}: no result within {seconds} s")
+    old = signal.signal(signal.SIGALRM, on_alarm)
+    signal.alarm(seconds)
+    try:
+        return fn()
+    except Hung:
+        _HANGS[key] = _HANGS.get(key, 0) + 1
+        raise
+    finally:
+        signal.alarm(0)
+        signal.signal(signal.SIGALRM, old)
